@@ -780,15 +780,7 @@ func (r *RegisteredDecoys) getExpiredRegistrations() []string {
 	var expiredRegTimeoutIndices = []string{}
 
 	for idx, regTimeout := range r.decoysTimeouts {
-		if regTimeout.status == regStatusUnused && time.Since(regTimeout.registrationTime) > r.timeoutUnused {
-			// if a registration has not senewTimeouten a valid connection in within the
-			// timeout we remove it from tracking as we do not expect to see a
-			// valid connection and no longer need it. Clients should retry with
-			// a new registration if connection has failed for this duration.
-			expiredRegTimeoutIndices = append(expiredRegTimeoutIndices, idx)
-		} else if time.Since(regTimeout.registrationTime) > r.timeoutActive {
-			// if a registration was received before the cutoff time add it
-			// to the list of registrations to be removed.
+		if r.isExpired(regTimeout) {
 			expiredRegTimeoutIndices = append(expiredRegTimeoutIndices, idx)
 		}
 	}
@@ -796,11 +788,31 @@ func (r *RegisteredDecoys) getExpiredRegistrations() []string {
 	return expiredRegTimeoutIndices
 }
 
+// isExpired applies the expiry rule to one timeout record. The caller holds the lock.
+func (r *RegisteredDecoys) isExpired(regTimeout *DecoyTimeout) bool {
+	if regTimeout.status == regStatusUnused && time.Since(regTimeout.registrationTime) > r.timeoutUnused {
+		// if a registration has not seen a valid connection in within the
+		// timeout we remove it from tracking as we do not expect to see a
+		// valid connection and no longer need it. Clients should retry with
+		// a new registration if connection has failed for this duration.
+		return true
+	} else if time.Since(regTimeout.registrationTime) > r.timeoutActive {
+		// if a registration was received before the cutoff time it is to be removed.
+		return true
+	}
+	return false
+}
+
 func (r *RegisteredDecoys) removeRegistration(index string) *regExpireLogMsg {
 	r.m.Lock()
 	defer r.m.Unlock()
 
-	expiredReg := r.decoysTimeouts[index]
+	// The expired set was collected under the read lock; the registration may have been removed
+	// or marked active (which extends its lifetime and was announced to the detector) since.
+	expiredReg, ok := r.decoysTimeouts[index]
+	if !ok || !r.isExpired(expiredReg) {
+		return nil
+	}
 	expiredRegObj, ok := r.decoys[expiredReg.decoy][expiredReg.identifier]
 	if !ok {
 		return nil
@@ -849,8 +861,11 @@ func (r *RegisteredDecoys) removeRegistration(index string) *regExpireLogMsg {
 func (r *RegisteredDecoys) removeOldRegistrations(logger *log.Logger) (int, int) {
 	var expiredRegTimeoutIndices = r.getExpiredRegistrations()
 
+	r.m.RLock()
+	totalRegistrations, totalTimeouts := r.totalRegistrations(), len(r.decoysTimeouts)
+	r.m.RUnlock()
 	logger.Debugf("cleansing registrations - registrations: %d, timeouts: %d, expired: %d",
-		r.TotalRegistrations(), len(r.decoysTimeouts), len(expiredRegTimeoutIndices))
+		totalRegistrations, totalTimeouts, len(expiredRegTimeoutIndices))
 
 	expiredValid := 0
 	for _, idx := range expiredRegTimeoutIndices {
